@@ -146,6 +146,20 @@ def cases(tier, seed):
     g5 = list(all_supports_und(5, 2, 8))
     for S in (rnd.sample(g5, 24) if q else rnd.sample(g5, 300)):
         add(fn='randomizer_bin_und', kind='binrand', n=5, sup=supname(S), support=S, draws=24, name='randomizer_bin_und/n5/' + supname(S))
+    # a single fully connected node (set aside before rewiring, restored afterwards) next to a rewirable remainder needs 5 nodes:
+    # hub h + one more connection, for every h (index 0 included); 6 nodes: hub + two connections and its complement (the routine rewires the complement)
+    for h in range(5):
+        o = [v for v in range(5) if v != h]
+        S = und_from_edges(5, [(h, v) for v in o] + [(o[0], o[1])])
+        add(fn='randomizer_bin_und', kind='binrand', n=5, sup='hub%d' % h, support=S, draws=24, name='randomizer_bin_und/n5/hub%d' % h)
+    if True:
+        for h in (0, 3, 5):
+            o = [v for v in range(6) if v != h]
+            E = [(h, v) for v in o] + [(o[0], o[1]), (o[2], o[3])]
+            S = und_from_edges(6, E)
+            add(fn='randomizer_bin_und', kind='binrand', n=6, sup='hub%d' % h, support=S, draws=24, name='randomizer_bin_und/n6/hub%d' % h)
+            C = [[int(a != b and not S[a][b]) for b in range(6)] for a in range(6)]
+            add(fn='randomizer_bin_und', kind='binrand', n=6, sup='cohub%d' % h, support=C, draws=24, name='randomizer_bin_und/n6/cohub%d' % h)
     return cs
 
 
